@@ -20,7 +20,7 @@ ID = "C19"
 LEVEL = "exploration"
 BATCH = 25
 PROBES_EXPECTED = ['probe:nested-project', 'probe:several-projects', 'probe:includes', 'probe:explicit-rename', 'walk_dirs']
-TIERS = {"quick": {"runs": 5000, "wall": 50}, "thorough": {"runs": 250000, "wall": 840}}
+TIERS = {"quick": {"runs": 15000, "wall": 50}, "thorough": {"runs": 250000, "wall": 840}}
 RULE = ("each run draws a directory tree (IDF root, components/**, projects with CMakeLists.txt project() present / commented / indented / absent, "
         "nested and sibling projects reusing option names, orphan directories), sdkconfig.rename and sdkconfig.defaults*/sdkconfig.ci* files, a seeded "
         "os.walk order, and 1-4 invocations over the same tree with drawn subsets and orders of files, optional explicit rename files and --includes; "
@@ -48,6 +48,11 @@ def generate(r, tier):
         name = r.choice(["components", "examples", "proj", "app", "test_apps", "sub", "main", "comp"]) + str(r.randint(0, 2))
         if parent == "" and r.random() < 0.3:
             name = "components"
+        sibs = [os.path.basename(x) for x in dirs if x and os.path.dirname(x) == parent and os.path.basename(x) != "components"]
+        if sibs and r.random() < 0.25:
+            # a directory whose name merely *starts with* a sibling's name (test_app / test_app_common): path prefix tests
+            # without a separator boundary confuse the two
+            name = r.choice(sibs) + r.choice(["_common", "0", "x", "-old"])
         d = os.path.join(parent, name) if parent else name
         if d not in dirs:
             dirs.append(d)
@@ -80,7 +85,7 @@ def generate(r, tier):
         if r.random() < 0.2:
             inv["includes"] = [r.choice(dirs)]
         invs.append(inv)
-    return {"tree": tree, "invocations": invs, "dir_salt": r.getrandbits(32), "hash_salt": 0}
+    return {"tree": tree, "invocations": invs, "dir_salt": r.getrandbits(32), "hash_salt": r.getrandbits(32)}
 
 
 def summarize(sc):
